@@ -77,13 +77,16 @@ def thermal_sum(zero, y, kh, kc, meta, slots, canon):
 class Q:
     """one incremental solver per project; tallies time"""
 
-    def __init__(self):
+    def __init__(self, xcheck="off"):
         self.s = z3.Solver()
         self.s.set("timeout", SOLVER_TIMEOUT_MS)
         # divisors of the thermal row: particle density and k_B are non-zero
         self.s.add(z3.Real("GetNumDens") != 0, z3.Real("kerg") != 0)
         self.time = 0.0
         self.n = 0
+        from .xcheck import XCheck
+        # second solver on a sample: thorough = first + every 40th query of every project, quick = first query of ~1 project in 8
+        self.xc = XCheck(every=40, first=1, cap=6) if xcheck == "thorough" else XCheck(every=10**9, first=1 if xcheck == "quick-sampled" else 0, cap=1)
 
     def differs(self, a, b, extra=()):
         """is there a valuation with a != b ?  -> ('unsat'|'sat'|'unknown', model)"""
@@ -97,6 +100,7 @@ class Q:
         self.s.pop()
         self.time += time.time() - t0
         self.n += 1
+        self.xc.sample(self.s, list(extra) + [R(a) != R(b)], str(r), f"differs#{self.n}")
         return str(r), m
 
     def sat(self, f):
@@ -175,6 +179,12 @@ def analyse(case, tier, props, target_keys, seed=0):
         _analyse(case, tier, props, target_keys, seed, res)
     except Exception as e:  # harness failure: reported, never a verdict
         res["errors"].append(f"{type(e).__name__}: {e}\n{traceback.format_exc()[-1500:]}")
+    # second-solver tallies of this worker's solvers (the solver objects themselves are not picklable)
+    from .xcheck import XCheck
+    tot = XCheck()
+    for q in res.pop("_qs", []):
+        tot.merge(q.xc.summary())
+    res["xcheck"] = tot.summary()
     return res
 
 
@@ -237,7 +247,9 @@ def _analyse_target(case, tier, props, p, meta, tdir, res, tr, jac_terms, seed):
     NH, NC, NNZ = macros.get("NHEATPROCS", 0), macros.get("NCOOLPROCS", 0), macros.get("NNZ", 0)
     thermal = bool(NH or NC)
     tag = f"{case.name}/{tdir}"
-    q = Q()
+    import zlib
+    q = Q("thorough" if tier == "thorough" else ("quick-sampled" if zlib.crc32(tag.encode()) % 8 == 0 else "off"))
+    res.setdefault("_qs", []).append(q)
     slots = slot_map(case, meta, macros)
     nat_cache = {}
 
